@@ -19,6 +19,10 @@ def decorations(quick, seed):
                 did = '%s_x%02d' % (bn, i)
                 i += 1
                 decs.append((did, bn, progs.decorate_excluded(b, did, where, idx, mode, t), '%s %s @%s[%d]' % (mode, t, '.'.join(where) or 'top', idx)))
+        # every spelling class of unexported names (a..z, _, non-ASCII lower case, caseless letter), top level and nested
+        for wi, where in enumerate(sorted({tuple(w) for (w, _) in progs.positions(b)})[:2]):
+            did = '%s_n%02d' % (bn, wi)
+            decs.append((did, bn, progs.decorate_excluded_names(b, did, list(where)), 'unexported-names @%s' % ('.'.join(where) or 'top')))
         top = len(b.kids)
         j = 0
         for s in range(top):
@@ -38,6 +42,7 @@ def decorations(quick, seed):
                 cand = [d for d in ex if d[3].startswith(md + ' ' + t + ' @')]
                 pick += rnd.sample(cand, min(1, len(cand)))
         pick += rnd.sample(em, min(13, len(em)))
+        pick += [d for d in decs if d[3].startswith('unexported-names')]
         decs = pick
     return bases, decs
 
